@@ -88,7 +88,7 @@ impl Prop for C18 {
         "C18"
     }
     fn rule(&self) -> String {
-        "cases = configuration {TLS offered?, server asks for a client certificate?, client has a certificate?, TLS 1.2 / 1.3} x a C03-style conversation (lock-step or pipelined; 1 in 8 with one reply of 600-5000 small rows, i.e. 60-500 KB of TLS records) x a chunk schedule over the whole client stream. The client is a rustls ClientConnection embedded in the scripted transport: it writes the SSLRequest packet (4.1 layout, reserved bytes zero or random; one in eight in the pre-4.1 layout with a 16-bit mask and a user name, then half of the time followed by a pre-4.1 encrypted response) and the ClientHello back-to-back (as real clients do), later flights as rustls produces them (the ClientHello optionally enlarged to 4-16 KiB by a long ALPN list, as session tickets and post-quantum key shares do), the HandshakeResponse (sequence id 2) and the commands inside the TLS session. Schedule classes: cut k bytes into the SSLRequest; SSLRequest + first k bytes of the ClientHello in one read; everything in one read; 1-byte reads; exact SSLRequest; mixed. Oracle: run_on = Ok; every server byte after the greeting parses as TLS records and is accepted by rustls; the user name from the *encrypted* response and the client's DER chain (or None) reach after_authentication; the decrypted replies equal, message for message, the same conversation run in plaintext (differential); the client never hangs. TLS requested but not offered => Err and after_authentication never called. Non-trivial = some read() returned bytes from both sides of the SSLRequest / ClientHello boundary (measured from the operation log).".into()
+        "cases = configuration {TLS offered?, server asks for a client certificate?, client has a certificate?, TLS 1.2 / 1.3} x a C03-style conversation (lock-step or pipelined; 1 in 8 with one reply of 600-5000 small rows, i.e. 60-500 KB of TLS records) x a chunk schedule over the whole client stream. The client is a rustls ClientConnection embedded in the scripted transport: it writes the SSLRequest packet (4.1 layout, reserved bytes zero or random; one in eight in the pre-4.1 layout with a 16-bit mask and a user name, then half of the time followed by a pre-4.1 encrypted response) and the ClientHello back-to-back (as real clients do), later flights as rustls produces them (the ClientHello optionally enlarged to 4-16 KiB by a long ALPN list, as session tickets and post-quantum key shares do), the HandshakeResponse (sequence id 2) and the commands inside the TLS session. Schedule classes: cut k bytes into the SSLRequest; SSLRequest + first k bytes of the ClientHello in one read; everything in one read; 1-byte reads; exact SSLRequest; mixed. Enumerated: a 17 MB query answered by a 17 MB row inside the TLS session (thorough: also 2^24-2 and 2*(2^24-1)+5 bytes), lock-step and pipelined. Oracle: run_on = Ok; every server byte after the greeting parses as TLS records and is accepted by rustls; the user name from the *encrypted* response and the client's DER chain (or None) reach after_authentication; the decrypted replies equal, message for message, the same conversation run in plaintext (differential); the client never hangs. TLS requested but not offered => Err and after_authentication never called. Non-trivial = some read() returned bytes from both sides of the SSLRequest / ClientHello boundary (measured from the operation log).".into()
     }
     fn assumptions(&self) -> Vec<String> {
         vec![
@@ -149,6 +149,37 @@ impl Prop for C18 {
             _ => *g.pick(&[1000usize, 3800, 3900, 4000, 4100, 6000, 8000, 12_000, 15_000]),
         };
         Case { conv, tls_offered: g.chance(5, 6), server_asks_client_cert: g.coin(), client_cert: g.coin(), tls13: g.coin(), alpn_pad, sslreq_320_user }
+    }
+    fn fixed(&self, tier: Tier) -> Vec<Case> {
+        // messages longer than a wire packet in both directions inside the TLS session (a 17 MB
+        // query answered by a 17 MB row; thorough: also two packets and an exact multiple)
+        use crate::vals::*;
+        let mut v = Vec::new();
+        let lens: &[usize] = match tier {
+            Tier::Quick => &[MAX_PAYLOAD + 1000],
+            Tier::Thorough => &[MAX_PAYLOAD - 1, MAX_PAYLOAD + 1000, 2 * MAX_PAYLOAD + 5],
+        };
+        for (i, &len) in lens.iter().enumerate() {
+            for lockstep in [true, false] {
+                let row = RowProg { cells: vec![Val::plain(Base::I32(7)), Val::plain(Base::BigBytes { seed: i as u32 + 1, len: len - 7 })], form: RowForm::WriteRow, offers: vec![] };
+                let prog = Program { steps: vec![Step::Set { cols: vec![ColSpec::simple("a", T_LONG, 0), ColSpec::simple("b", T_LONG_BLOB, 0)], rows: vec![row], end: SetEnd::Finish }] };
+                let mut conv = Conversation::new(
+                    vec![Cmd::Ping, Cmd::Query { text: Blob::Text { seed: i as u32 + 20, len: len - 1 } }, Cmd::Query { text: Blob::text("small") }, Cmd::Ping],
+                    vec![Action::Result(prog), Action::Result(Program::completed(1, 2))],
+                );
+                conv.hs = Handshake {
+                    kind: HsKind::V41 { caps: CAP_LONG_PASSWORD | CAP_PROTOCOL_41 | CAP_SSL | CAP_SECURE_CONNECTION | CAP_MULTI_RESULTS, max_packet: 1 << 24, charset: 0x21, user: b"tlsuser".to_vec(), tail: vec![0] },
+                    seq: 2,
+                    user_pad: 0,
+                    tail_pad: 0,
+                    reserved: vec![],
+                };
+                conv.lockstep = lockstep;
+                conv.sched = Schedule { sizes: vec![36 + 100, 16_384, 1 << 20], hot: vec![], big: 0, write_accept: vec![] };
+                v.push(Case { conv, tls_offered: true, server_asks_client_cert: false, client_cert: false, tls13: i % 2 == 0, alpn_pad: 0, sslreq_320_user: None });
+            }
+        }
+        v
     }
     fn exec(&self, case: &Case) -> Exec {
         let mut ex = Exec::default();
@@ -214,6 +245,9 @@ impl Prop for C18 {
         ex.class(if c.lockstep { "lock-step" } else { "pipelined" });
         if log.decrypted.len() > 65_536 {
             ex.class("response-stream>64KiB-over-TLS");
+        }
+        if log.decrypted.len() > MAX_PAYLOAD {
+            ex.class("message-longer-than-a-wire-packet-over-TLS");
         }
 
         if let RunResult::Panic(p) = &o.result {
